@@ -88,6 +88,7 @@ package newick
 //@   ensures [well_formed] pw(p)
 //@   ensures [measure_does_not_grow] pm(p) <= old(pm(p))
 //@   loop 1
+//@     complete [all_iterations_no_early_exit]
 //@     assigns stream(p.s.r), p.buf
 //@     invariant [well_formed] pw(p) && p.s == old(p.s) && p.s.r == old(p.s.r)
 //@     invariant [measure_does_not_grow] pm(p) <= old(pm(p))
@@ -99,6 +100,7 @@ package newick
 //@   assigns ns.elt
 //@   ensures [emptied] len(ns.elt) == 0
 //@   loop 1
+//@     complete [all_iterations_no_early_exit]
 //@     assigns el.e, el.n
 
 // ---------------------------------------------------------------------------
